@@ -270,6 +270,35 @@ def gen_cases(chk):
     return cases
 
 
+def impl_exe():
+    # build_impl() drops the builds of other trees; with several checks running concurrently on different
+    # VERIF_REPO trees a build directory can disappear under our feet -> retry
+    last = None
+    for _ in range(4):
+        try:
+            return vlib.build_c_driver("c19", [DRIVER])
+        except OSError as e:
+            last = e
+        except vlib.BuildError as e:
+            if "No such file or directory" not in str(e):
+                raise
+            last = e
+    raise vlib.BuildError("driver build directory keeps disappearing: %s" % last)
+
+
+def run_impl(lines, parallel=True):
+    """Run the C driver; if the executable vanished (another check rebuilt the implementation for a
+    different tree, which drops older builds) rebuild it and try again."""
+    last = None
+    for _ in range(4):
+        exe = impl_exe()
+        try:
+            return (vlib.run_parallel if parallel else vlib.run_lines)(exe, lines)
+        except OSError as e:
+            last = e
+    raise vlib.BuildError("driver executable keeps disappearing: %s" % last)
+
+
 def load_corpus():
     p = os.path.join(vlib.ROOT, "corpus", "C19.txt")
     if not os.path.exists(p):
@@ -297,12 +326,12 @@ def run(chk):
                        "oracle: Python bytes.find/partition statement of RFC 7622 section 3.2 and of the refusal conditions "
                        "(independent of the Coq model)"]
     chk.prove()
-    exe = vlib.build_c_driver("c19", [DRIVER])
+    impl_exe()
     cases = gen_cases(chk)
     corpus = load_corpus()
     lines = corpus + [c for c, _ in cases]
     kinds = ["corpus"] * len(corpus) + [k for _, k in cases]
-    impl = vlib.run_parallel(exe, lines)
+    impl = run_impl(lines)
     model = None
     if chk.coq and not chk.coq.get("extract_ok", False):
         # the model could not be regenerated from this tree (translator or Coq failure, reported above as a
@@ -315,7 +344,7 @@ def run(chk):
             model = vlib.run_parallel(mexe, lines)
         except vlib.BuildError as e:
             chk.broken.append({"kind": "extract", "name": "Extract_C19", "detail": str(e)[:500]})
-    seen = set()
+    seen, done, differ = set(), set(), set()
     results = {"parse": 0, "built": 0, "refused": 0, "crash": 0}
     for i, line in enumerate(lines):
         chk.evaluations += 1
@@ -333,12 +362,14 @@ def run(chk):
             results["refused"] += 1
         else:
             results["built"] += 1
-        bad = oracle(line, out)
+        bad = oracle(line, out) if line not in done else []
+        done.add(line)
         if bad:
             chk.fail(line, "; ".join(bad)[:600] + " (implementation returned %s)" % str(out)[:200])
         if model is not None:
             chk.traces_validated += 1
-            if model[i] != out:
+            if model[i] != out and line not in differ:
+                differ.add(line)
                 chk.disagree("jid", line, out, model[i])
         if i % 1499 == 0:
             chk.sample({"input": line[:200], "impl": str(out)[:200], "model": model[i][:200] if model else None})
@@ -347,20 +378,20 @@ def run(chk):
         # report the smallest failing input first, minimised further by delta debugging on its bytes
         chk.failures.sort(key=lambda f: len(f["case"]))
         first = chk.failures[0]
-        small = shrink_case(exe, first["case"])
+        small = shrink_case(first["case"])
         if small != first["case"]:
-            out = vlib.run_lines(exe, [small])[0]
+            out = run_impl([small], parallel=False)[0]
             chk.failures.insert(0, {"stream": "oracle-shrunk", "case": small, "shrunk_from": first["case"][:400],
                                     "what": "; ".join(oracle(small, out))[:600] + " (implementation returned %s)" % str(out)[:200]})
 
 
-def shrink_case(exe, line):
+def shrink_case(line):
     """Delta-debug the bytes of every string of the case while the property still fails on the implementation."""
     toks = line.split(" ")
 
     def fails(ts):
         l = " ".join(ts)
-        return bool(oracle(l, vlib.run_lines(exe, [l])[0]))
+        return bool(oracle(l, run_impl([l], parallel=False)[0]))
 
     for i in range(1, len(toks)):
         b = unhx(toks[i])
@@ -386,8 +417,7 @@ def replay(path):
     if not case:
         print("replay file names no concrete input: %s" % json.dumps(rec.get("broken_obligations"))[:500])
         return 1
-    exe = vlib.build_c_driver("c19", [DRIVER])
-    impl = vlib.run_lines(exe, [case])[0]
+    impl = run_impl([case], parallel=False)[0]
     try:
         model = vlib.run_lines(vlib.build_ocaml_model("C19"), [case])[0]
     except vlib.BuildError:
